@@ -1,4 +1,5 @@
 // C12 native layer: the REAL rpc::DeserializerIOV / SerializerIOV / slice / string on hostile and on honest bytes.
+#include "../../../repo/common/iovector.cpp"     // the gathering of fields that straddle fragments, compiled from the working tree
 #include <photon/rpc/serialize.h>
 #include <cstdio>
 #include <cstdlib>
@@ -65,6 +66,25 @@ static bool case_roundtrip(uint64_t nl, uint64_t bl, uint64_t cut) {
     if (memcmp(t->name.addr(), nm.data(), t->name.size()) || memcmp(t->blob.addr(), bb.data(), bl)) FAIL("round trip: bytes differ");
     return true;
 }
+// (3b) an iovec_array field refers to the caller's iovec[]: the lengths sent are those at serialization time, whatever was cached when
+// the array was built; the string field behind it must still be found
+struct IMsg : public Message { int32_t a; iovec_array data; string tag; PROCESS_FIELDS(data, tag); };
+static bool case_iovec_array(uint64_t l0, uint64_t l1, uint64_t l1_after, uint64_t cut) {
+    std::vector<char> b0(l0 + 1, 'A'), b1(std::max(l1, l1_after) + 1, 'B'); char tg[] = "tag-1";
+    struct iovec v[2] = {{b0.data(), (size_t)l0}, {b1.data(), (size_t)l1}};
+    IMsg m; m.a = 3; m.data.assign(v, 2); m.tag.assign((const void*)tg, sizeof tg);
+    v[1].iov_len = l1_after;                        // e.g. a read that returned fewer (or a buffer filled later with more) bytes
+    SerializerIOV ser; ser.serialize(m);
+    if (ser.iovfull) FAIL("serializer reported a full vector");
+    std::vector<char> flat(ser.iov.sum()); ser.iov.memcpy_to(flat.data(), flat.size());
+    IOVector in; size_t c = flat.empty() ? 0 : cut % (flat.size() + 1);
+    if (c) in.push_back(flat.data(), c); if (flat.size() - c) in.push_back(flat.data() + c, flat.size() - c);
+    DeserializerIOV des; IMsg* t = des.deserialize<IMsg>(&in);
+    if (!t) FAIL("iovec_array round trip: deserialize rejected bytes that serialize produced");
+    if (t->a != 3 || t->data.summed_size != l0 + l1_after) FAIL("iovec_array round trip: the field arrives with a different length than was sent");
+    if (t->tag.size() != sizeof tg || memcmp(t->tag.addr(), tg, sizeof tg)) FAIL("iovec_array round trip: the field behind the iovec_array is not the one that was sent");
+    return true;
+}
 // (4) a CHECKED message whose field bytes were altered in transit must be rejected
 struct CMsg : public CheckedMessage<> {
     int32_t a; string name; int64_t b;
@@ -109,6 +129,7 @@ int main(int argc, char** argv) {
         std::ifstream f(argv[2]); std::stringstream ss; ss << f.rdbuf(); std::string j = ss.str(); bool ok = true;
         if (j.find("\"kind\": \"anchor\"") != std::string::npos) ok = case_anchor(jnum(j, "off"), jnum(j, "len"), jnum(j, "n"));
         else if (j.find("\"kind\": \"hostile_array\"") != std::string::npos) ok = case_hostile_array(jnum(j, "arr_len"), jnum(j, "payload"));
+        else if (j.find("\"kind\": \"iovec_array\"") != std::string::npos) ok = case_iovec_array(jnum(j, "l0"), jnum(j, "l1"), jnum(j, "l1_after"), jnum(j, "cut"));
         else if (j.find("\"kind\": \"checksum\"") != std::string::npos) ok = case_checksum(jnum(j, "name_len"), jnum(j, "flip_at"), (int)jnum(j, "where"));
         else if (j.find("\"kind\": \"hostile\"") != std::string::npos) ok = case_hostile(jnum(j, "name_len"), jnum(j, "blob_len"), jnum(j, "payload"), jnum(j, "cut"));
         else ok = case_anchor(1 << 20, 16, 8) && case_hostile(0, 0, 4);     // canonical inputs for the contract obligations
@@ -128,6 +149,8 @@ int main(int argc, char** argv) {
               else { printf("CEX %s {\"kind\": \"checksum\", \"name_len\": %lu, \"flip_at\": %lu, \"where\": %d, \"why\": \"%s\"}\n", cls, nl, fa, where, why.c_str()); return 3; } } }
         if (k % 64 == 0) { uint64_t al = (rnd() % 8 + 1) * 16, pl = rnd() % 48; ++cases;
           if (!case_hostile_array(al, pl)) { printf("CEX hostile_array {\"kind\": \"hostile_array\", \"arr_len\": %lu, \"payload\": %lu, \"why\": \"%s\"}\n", al, pl, why.c_str()); return 3; } }
+        { uint64_t a_ = rnd() % 30, b_ = rnd() % 30, c_ = rnd() % 3 == 0 ? b_ : rnd() % 30, k_ = rnd();
+          ++cases; if (!case_iovec_array(a_, b_, c_, k_)) { printf("CEX iovec_array {\"kind\": \"iovec_array\", \"l0\": %lu, \"l1\": %lu, \"l1_after\": %lu, \"cut\": %lu, \"why\": \"%s\"}\n", (unsigned long)a_, (unsigned long)b_, (unsigned long)c_, (unsigned long)k_, why.c_str()); return 3; } }
         ++cases; if (!case_roundtrip(rnd() % 40, rnd() % 40, rnd())) { printf("CEX roundtrip {\"kind\": \"roundtrip\", \"why\": \"%s\"}\n", why.c_str()); return 3; }
     }
     printf("OK %lu (hostile slices, hostile field descriptors through the real DeserializerIOV, honest fragmented round trips)\n", cases);
